@@ -61,7 +61,7 @@ pub fn read_varint<R: BufRead>(mut src: R) -> Result<u64, VarintError> {
         }
 
         src.consume(buf_len);
-        if index > MAX_VARINT_LEN {
+        if index >= MAX_VARINT_LEN {
             break;
         }
     }
